@@ -124,3 +124,35 @@ def sample(ch, tag, kinds_by_key, sym=False, fixed=True):
         if v is not ABSENT:
             obj[key] = v
     return obj
+
+
+# ------------------------------------------------------------------------------------------------ grammar-based values
+G_SCALARS = ["null", "int", "float", "bool", "s_abc", "s_xyz", "s_int", "s_float", "s_long"]
+
+
+def grammar1():
+    """all depth-1 value descriptors: a scalar, or a list / object of up to two scalars (plus absent)"""
+    out = [("absent",)] + [("scalar", k) for k in G_SCALARS] + [("list",), ("obj",)]
+    out += [("list", a) for a in G_SCALARS] + [("list", a, b) for a in G_SCALARS for b in G_SCALARS if a <= b]
+    out += [("obj", a) for a in G_SCALARS] + [("obj", a, b) for a in G_SCALARS for b in G_SCALARS]
+    return out
+
+
+def build_descriptor(ch, tag, d, sym=False):
+    if d[0] == "absent":
+        return ABSENT
+    if d[0] == "scalar":
+        return build(ch, tag, d[1], sym)
+    items = [build(ch, f"{tag}.{i}", k, sym) for i, k in enumerate(d[1:])]
+    if d[0] == "list":
+        return items
+    return dict(zip(["x", "y"], items))
+
+
+def sample_from_descriptors(ch, tag, desc_by_key, sym=False):
+    obj = {"fix": leaf(ch, tag + ".fix", "int", sym)}
+    for key, d in desc_by_key.items():
+        v = build_descriptor(ch, f"{tag}.{key}", d, sym)
+        if v is not ABSENT:
+            obj[key] = v
+    return obj
